@@ -14,9 +14,12 @@ with which text and — for `write_for` — with which node (position and name, 
                                                            the `write_for` calls with a non-builtin position, in order    → `opTypeSites`
   crates/printer/src/operation_js_printer/visitor.rs       the same for the JavaScript module                             → `opJsSites`
 
-For the two operation printers only the PROJECTION onto the mapped calls is modelled: every other `write_for` of these printers
-passes a node whose position is `Pos::builtin()` (object keys built from strings), which `SourceWriter::write_for` treats as
-`write`; the bodies (selection-set types, JSON runtime) are the business of `Model/OpTypes.lean` / `Model/DocJson.lean`.
+`opTypeSites` / `opJsSites` (wave 3) are the PROJECTION of the two operation printers' sequences onto the mapped calls: every
+other `write_for` of these printers passes a node whose position is `Pos::builtin()` (object keys built from strings), which
+`SourceWriter::write_for` treats as `write`.  Second stage (section "the WHOLE call sequence" at the end of this file):
+`opTypeOps` / `opJsOps` are EVERY call of `print_types_for_operation_document` / `print_js_for_operation_document`, in order;
+the selection trees come from `Model/OpTypes.lean` (`resultTree`), the runtime documents from `Model/FragClosure.lean` +
+`Model/DocJson.lean`, and this file adds the printing layer (`treeTy`, `varsTy`, `jsonText`, statements, exports).
 The position of an operation's selection set is not part of the shared AST (`Gql/Ast.lean`): it is an extra input (`selPos`,
 one per operation, in document order).
 
@@ -27,6 +30,9 @@ Core Lean only; structurally recursive.
 -/
 import NitroVerif.Model.SchemaDecls
 import NitroVerif.Model.SourceMap
+import NitroVerif.Model.OpTypes
+import NitroVerif.Model.DocJson
+import NitroVerif.Model.FragClosure
 namespace NitroVerif.PrintMap
 open NitroVerif.Gql NitroVerif.DeclCfg
 
@@ -469,5 +475,274 @@ def opJsSites (o : OpOpts) : Doc → List POp
   | .frag f :: rest => .writeFor (f.name ++ o.fragmentVariableSuffix) f.pos (some f.name) :: opJsSites o rest
   | .imp _ :: rest => opJsSites o rest
 
-end NitroVerif.PrintMap
+/-! ## operation printers: the WHOLE call sequence (second stage)
 
+  crates/printer/src/operation_type_printer/selection_tree/to_ts.rs   `generate_selection_tree_type`  → `treeTy` (the `TSType`
+                                                                       the printer builds, NOT normalised: nested unions stay nested)
+  crates/printer/src/operation_type_printer/type_printer.rs           `get_type_for_variable_definitions` (+ `ts_intersection`,
+                                                                       which merges the one-field objects into one object) → `varsTy`
+  json-writer 0.4 (`JSONObjectWriter`, `write_string`)                compact JSON text with its escape table → `jsonText`
+  crates/printer/src/operation_js_printer/printers.rs                 `print_operation_runtime` / `print_fragment_runtime` → `runtimeText`
+  crates/printer/src/operation_type_printer/visitor.rs                header, operation, fragment, default export → `opType*Ops`
+  crates/printer/src/operation_js_printer/visitor.rs                  the same for the JavaScript module → `opJs*Ops`
+  crates/printer/src/operation_base_printer/mod.rs                    `print_document` (the loop, `exported`, `operation_count`)
+
+Every `ObjectKey` of these types is built from a string (`From<String>` / `From<&str>`): its position is `Pos::builtin()`. -/
+
+/-- the mapper `field_to_type` passes to `map_to_tstype`: `NS.__OperationOutput.<name>` -/
+def outLeaf (ns : String) : Name → Pos → TSTy := fun n _ => .ns3 ns Target.operationOutput.name n
+
+/-- the mapper of `get_type_for_variable_definitions`: `NS.__OperationInput.<name>` -/
+def inLeaf (ns : String) : Name → Pos → TSTy := fun n _ => .ns3 ns Target.operationInput.name n
+
+mutual
+/-- `generate_selection_tree_type_impl` (`map_to_tstype` is `tsOfType`: the same recursion as `get_ts_type_of_type`) -/
+def treeTy (ns : String) : OpTypes.SelTree → Bool → TSTy
+  | .nonNull t, _ => treeTy ns t true
+  | .list t, nn => if nn then .arr (treeTy ns t false) else tsUnion [.arr (treeTy ns t false), .null]
+  | .object bs, nn => if nn then tsUnion (branchesTy ns bs) else tsUnion [tsUnion (branchesTy ns bs), .null]
+def branchesTy (ns : String) : List OpTypes.Branch → List TSTy
+  | [] => []
+  | b :: bs => branchTy ns b :: branchesTy ns bs
+def branchTy (ns : String) : OpTypes.Branch → TSTy
+  | .mk tn _ un al =>
+    .func (.ns2 ns "__SelectionSet")
+      [.ns3 ns Target.operationOutput.name tn, .obj (fieldsTy ns tn un), .obj (fieldsTy ns tn al)]
+def fieldsTy (ns : String) (parent : Name) : List OpTypes.SField → List TSField
+  | [] => []
+  | f :: fs => fieldTy ns parent f :: fieldsTy ns parent fs
+/-- `field_to_type`: the key is `name.to_string().into()` — an `ObjectKey` with `Pos::builtin()` -/
+def fieldTy (ns : String) (parent : Name) : OpTypes.SField → TSField
+  | .empty n => .mk n bi .never false true none
+  | .leaf n ty isTn => .mk n bi (if isTn then .strLit parent else tsOfType (outLeaf ns) ty) false false none
+  | .object n sel => .mk n bi (treeTy ns sel false) false false none
+end
+
+/-- one property of the Variables type (`key: property_name.into()`: built-in position) -/
+def varField (ns : String) (optionalInput : Bool) (d : VarDef) : TSField :=
+  let ft := tsOfType (inLeaf ns) d.ty
+  let opt := !d.ty.isNonNull && optionalInput
+  .mk d.name bi (if opt then tsUnion [ft, .undefined] else ft) true opt none
+
+/-- `get_type_for_variable_definitions` (also `TSType::empty_object()` when the operation has no variables) -/
+def varsTy (ns : String) (optionalInput : Bool) (vars : List VarDef) : TSTy :=
+  .obj (vars.map (varField ns optionalInput))
+
+/-! ### json-writer -/
+
+def hexDigit (n : Nat) : Char := "0123456789ABCDEF".toList.getD n '0'
+
+/-- the `REPLACEMENTS` table of json-writer: `"` `\` `/` and the bytes below 0x20 -/
+def jsonEscChar (c : Char) : List Char :=
+  if c = '"' then ['\\', '"']
+  else if c = '\\' then ['\\', '\\']
+  else if c = '/' then ['\\', '/']
+  else if c.toNat = 8 then ['\\', 'b']
+  else if c.toNat = 12 then ['\\', 'f']
+  else if c = '\n' then ['\\', 'n']
+  else if c = '\r' then ['\\', 'r']
+  else if c = '\t' then ['\\', 't']
+  else if c.toNat < 32 then ['\\', 'u', '0', '0', hexDigit (c.toNat / 16), hexDigit (c.toNat % 16)]
+  else [c]
+
+/-- `write_string` -/
+def jsonStr (s : String) : String := "\"" ++ String.ofList (s.toList.flatMap jsonEscChar) ++ "\""
+
+mutual
+/-- the text `JSONObjectWriter` / `JSONArrayWriter` produce for a tree: no white space, members in order -/
+def jsonText : Json → String
+  | .null => "null"
+  | .bool b => if b then "true" else "false"
+  | .num r => r
+  | .str s => jsonStr s
+  | .arr xs => "[" ++ jsonTextList xs true ++ "]"
+  | .obj kvs => "{" ++ jsonTextFields kvs true ++ "}"
+def jsonTextList : List Json → Bool → String
+  | [], _ => ""
+  | x :: xs, first => (if first then "" else ",") ++ jsonText x ++ jsonTextList xs false
+def jsonTextFields : List (String × Json) → Bool → String
+  | [], _ => ""
+  | (k, v) :: r, first => (if first then "" else ",") ++ jsonStr k ++ ":" ++ jsonText v ++ jsonTextFields r false
+end
+
+/-! ### the printers -/
+
+/-- why a printer does not return: a panic site of the type printer (`OpTypes.Panic`) or of the runtime printer
+    (`expect("fragment not found")`, `FragClosure.RtErr`) -/
+inductive OpErr where
+  | types (p : OpTypes.Panic)
+  | runtime (e : FragClosure.RtErr)
+  deriving Repr, DecidableEq
+
+/-- `OperationTypePrinterOptions` + `OperationBasePrinterOptions` -/
+structure FullOpts where
+  /-- the name options and `print_values` -/
+  names : OpOpts := {}
+  defaultExport : Bool := true
+  namedExport : Bool := false
+  exportInput : Bool := false
+  exportResult : Bool := false
+  /-- `schema_root_namespace` -/
+  ns : String := "Schema"
+  schemaSource : String := ""
+  typedDocumentNodeSource : String := "@graphql-typed-document-node/core"
+  /-- `allow_undefined_as_optional_input` -/
+  optionalInput : Bool := true
+  deriving Repr, Inhabited
+
+/-- `print_operation_runtime` / `print_fragment_runtime`: ONE `write` of this text -/
+def runtimeText (D : Doc) (x : ExecDef) : Except OpErr String :=
+  match FragClosure.runtimeDefs D x with
+  | .ok defs => .ok (jsonText (DocJson.toJson defs))
+  | .error e => .error (.runtime e)
+
+/-- `generate_selection_tree_type(get_type_for_selection_set(..))` of a definition -/
+def resultTy (ns : String) (S : Schema) (D : Doc) (x : ExecDef) : Except OpErr TSTy :=
+  match OpTypes.resultTree S D x with
+  | some (.ok t) => .ok (treeTy ns t false)
+  | some (.error p) => .error (.types p)
+  | none => .ok .never
+
+/-- `print_header` of the type printer (`writeln!` / `write!` = one `write_fmt` each) -/
+def opTypeHeaderOps (fo : FullOpts) : List POp :=
+  [.write ("import type { TypedDocumentNode } from \"" ++ fo.typedDocumentNodeSource ++ "\";\n"),
+   .write ("import type * as " ++ fo.ns ++ " from \"" ++ fo.schemaSource ++ "\";\n\n")]
+
+def exportKw (exported : Bool) : List POp := if exported then [.write "export "] else []
+
+/-- `if exported { "export " } else if !print_values { "declare " }`, then `"const "` -/
+def constPrefixOps (exported printValues : Bool) : List POp :=
+  (if exported then [.write "export "] else if !printValues then [.write "declare "] else []) ++ [.write "const "]
+
+/-- `[export ]type <Name><resultSuffix> = <selection type>;` -/
+def resultDeclOps (fo : FullOpts) (op : OperationDef) (sp : Pos) (rt : TSTy) : List POp :=
+  exportKw fo.exportResult
+  ++ [.write "type ", .writeFor (operationName fo.names op ++ fo.names.resultSuffix) (namePosOf op).1 (namePosOf op).2,
+      .writeFor " = " sp none]
+  ++ printTy rt ++ [.write ";\n\n"]
+
+/-- `[export ]type <Name><variablesSuffix> = <variables type>;` -/
+def varsDeclOps (fo : FullOpts) (op : OperationDef) : List POp :=
+  exportKw fo.exportInput
+  ++ [.write "type ", .writeFor (operationName fo.names op ++ fo.names.variablesSuffix) (namePosOf op).1 (namePosOf op).2,
+      .write " = "]
+  ++ printTy (varsTy fo.ns fo.optionalInput op.vars) ++ [.write ";\n\n"]
+
+/-- `[export |declare ]const <Name><kind suffix>: TypedDocumentNode<R, V>[ = <json> as unknown as TypedDocumentNode<R, V>];` -/
+def opConstOps (fo : FullOpts) (op : OperationDef) (sp : Pos) (js : Option String) : List POp :=
+  let r := operationName fo.names op ++ fo.names.resultSuffix
+  let v := operationName fo.names op ++ fo.names.variablesSuffix
+  constPrefixOps fo.namedExport fo.names.printValues
+  ++ [.writeFor (operationVariableName fo.names op) (namePosOf op).1 (namePosOf op).2, .writeFor ": " sp none,
+      .write "TypedDocumentNode<", .write r, .write ", ", .write v]
+  ++ (match js with
+      | none => [.write ">;\n\n"]
+      | some j => [.write "> = ", .write j, .write " as unknown as TypedDocumentNode<", .write r, .write ", ", .write v,
+                   .write ">;\n\n"])
+
+/-- `print_default_exported_operation_definition` (both visitors) -/
+def defaultExportOps (fo : FullOpts) (op : OperationDef) : List POp :=
+  [.write "export { ", .write (operationVariableName fo.names op), .write " as default };\n\n"]
+
+/-- the runtime text when values are printed -/
+def optRuntime (printValues : Bool) (D : Doc) (x : ExecDef) : Except OpErr (Option String) :=
+  if printValues then (runtimeText D x).map some else .ok none
+
+/-- `print_operation_definition` of the type printer, then the default export when it applies -/
+def opTypeOperationOps (fo : FullOpts) (S : Schema) (D : Doc) (count : Nat) (op : OperationDef) (sp : Pos) :
+    Except OpErr (List POp) :=
+  match resultTy fo.ns S D (.op op) with
+  | .error e => .error e
+  | .ok rt =>
+    match optRuntime fo.names.printValues D (.op op) with
+    | .error e => .error e
+    | .ok js =>
+      .ok (resultDeclOps fo op sp rt ++ varsDeclOps fo op ++ opConstOps fo op sp js
+           ++ (if fo.defaultExport && count == 1 then defaultExportOps fo op else []))
+
+/-- `[export ]type <name><fragmentTypeSuffix> = <selection type>;` — the node is the fragment DEFINITION -/
+def fragDeclOps (fo : FullOpts) (f : FragmentDef) (exported : Bool) (rt : TSTy) : List POp :=
+  exportKw exported
+  ++ [.write "type ", .writeFor (f.name ++ fo.names.fragmentTypeSuffix) f.pos (some f.name), .write " = "]
+  ++ printTy rt ++ [.write ";\n\n"]
+
+/-- `[export |declare ]const <name><fragmentVariableSuffix>: TypedDocumentNode<T, never>[ = <json> as unknown as …];` -/
+def fragConstOps (fo : FullOpts) (f : FragmentDef) (exported : Bool) (js : Option String) : List POp :=
+  let t := f.name ++ fo.names.fragmentTypeSuffix
+  constPrefixOps exported fo.names.printValues
+  ++ [.writeFor (f.name ++ fo.names.fragmentVariableSuffix) f.pos (some f.name), .write ": ", .write "TypedDocumentNode<",
+      .writeFor t f.pos (some f.name), .write ", never>"]
+  ++ (match js with
+      | none => [.write ";\n\n"]
+      | some j => [.write " = ", .write j, .write " as unknown as TypedDocumentNode<", .writeFor t f.pos (some f.name),
+                   .write ", never>;\n\n"])
+
+/-- `print_fragment_definition` of the type printer; `exported` = the fragment is in the document's own file -/
+def opTypeFragmentOps (fo : FullOpts) (S : Schema) (D : Doc) (docFile : Nat) (f : FragmentDef) : Except OpErr (List POp) :=
+  match resultTy fo.ns S D (.frag f) with
+  | .error e => .error e
+  | .ok rt =>
+    match optRuntime fo.names.printValues D (.frag f) with
+    | .error e => .error e
+    | .ok js => .ok (fragDeclOps fo f (docFile == f.pos.file) rt ++ fragConstOps fo f (docFile == f.pos.file) js)
+
+/-- `document.definitions.iter().filter(OperationDefinition).count()` -/
+def operationCount : Doc → Nat
+  | [] => 0
+  | .op _ :: r => operationCount r + 1
+  | _ :: r => operationCount r
+
+/-- the `for d in document.definitions` loop of `OperationPrinter::print_document` with the type visitor; `D` = the whole
+    document (fragment table, fuel), `sps` = the positions of the operations' selection sets, in order -/
+def opTypeDefsOps (fo : FullOpts) (S : Schema) (D : Doc) (docFile count : Nat) : Doc → List Pos → Except OpErr (List POp)
+  | [], _ => .ok []
+  | .op op :: rest, sps =>
+    match opTypeOperationOps fo S D count op (sps.headD {}) with
+    | .error e => .error e
+    | .ok a => match opTypeDefsOps fo S D docFile count rest sps.tail with
+      | .error e => .error e
+      | .ok r => .ok (a ++ r)
+  | .frag f :: rest, sps =>
+    match opTypeFragmentOps fo S D docFile f with
+    | .error e => .error e
+    | .ok a => match opTypeDefsOps fo S D docFile count rest sps with
+      | .error e => .error e
+      | .ok r => .ok (a ++ r)
+  | .imp _ :: rest, sps => opTypeDefsOps fo S D docFile count rest sps
+
+/-- `print_types_for_operation_document`: EVERY call on the writer, in order (`error` = the printer panics).
+    `docFile` = `document.position.file`. -/
+def opTypeOps (fo : FullOpts) (S : Schema) (D : Doc) (docFile : Nat) (sps : List Pos) : Except OpErr (List POp) :=
+  match opTypeDefsOps fo S D docFile (operationCount D) D sps with
+  | .error e => .error e
+  | .ok r => .ok (opTypeHeaderOps fo ++ r)
+
+/-- `[export ]const <name> = <json>;` -/
+def jsConstOps (exported : Bool) (text : String) (p : Pos) (n : Option String) (js : String) : List POp :=
+  exportKw exported ++ [.write "const ", .writeFor text p n, .write " = ", .write js, .write ";\n\n"]
+
+/-- the loop with the visitor of the JavaScript module (header and trailer print nothing) -/
+def opJsDefsOps (fo : FullOpts) (D : Doc) (docFile count : Nat) : Doc → Except OpErr (List POp)
+  | [] => .ok []
+  | .op op :: rest =>
+    match runtimeText D (.op op) with
+    | .error e => .error e
+    | .ok js => match opJsDefsOps fo D docFile count rest with
+      | .error e => .error e
+      | .ok r =>
+        .ok (jsConstOps fo.namedExport (operationVariableName fo.names op) (namePosOf op).1 (namePosOf op).2 js
+             ++ (if fo.defaultExport && count == 1 then defaultExportOps fo op else []) ++ r)
+  | .frag f :: rest =>
+    match runtimeText D (.frag f) with
+    | .error e => .error e
+    | .ok js => match opJsDefsOps fo D docFile count rest with
+      | .error e => .error e
+      | .ok r =>
+        .ok (jsConstOps (docFile == f.pos.file) (f.name ++ fo.names.fragmentVariableSuffix) f.pos (some f.name) js ++ r)
+  | .imp _ :: rest => opJsDefsOps fo D docFile count rest
+
+/-- `print_js_for_operation_document`: EVERY call on the writer, in order -/
+def opJsOps (fo : FullOpts) (D : Doc) (docFile : Nat) : Except OpErr (List POp) :=
+  opJsDefsOps fo D docFile (operationCount D) D
+
+end NitroVerif.PrintMap
